@@ -32,6 +32,10 @@ FLOAT_NEG = [-0.5, -2.25]
 STRS = ["mnist", "adam", "x_y"]
 
 
+NAME_COLS = [None]      # restrict the identifier pool to these columns (C05: no `*_id` / `*_name` primary-key candidates)
+ALLOW_KEYS = [set()]     # extra entry keys the comparison tolerates (C05: the synthetic id's server_default)
+
+
 class Gamma(object):
     def __init__(self, seed=0):
         self.rnd = random.Random(seed)
@@ -40,7 +44,8 @@ class Gamma(object):
         return pool[(self.rnd.randrange(1 << 16) if False else salt) % len(pool)]
 
     def name(self, k, salt):
-        return NAMES[k % len(NAMES)][salt % len(NAMES[0])]
+        cols = NAME_COLS[0] or list(range(len(NAMES[0])))
+        return NAMES[k % len(NAMES)][cols[salt % len(cols)]]
 
     def default(self, d, typ, salt):
         """abstract default -> (present, concrete value)"""
@@ -117,6 +122,10 @@ class Gamma(object):
             return True, "the {}. Defaults to".format(name)
         if c == "pk":
             return True, "[PK] the {}".format(name)
+        if c == "fk":
+            return True, "[FK(other_tbl.id)] the {}".format(name)
+        if c == "pkonly":
+            return True, "[PK]"
         raise KeyError("no concretisation for doc " + c)
 
     def entry(self, e, name, salt):
@@ -156,7 +165,7 @@ class Gamma(object):
                     "def_any": e["def"] == "any", "wild": bool(e.get("wild"))}
         params = []
         for k, e in enumerate(x["params"]):
-            nm = self.name(k, salt)
+            nm = e.get("name") or self.name(k, salt)
             params.append([nm, ent(e, nm, salt + k, i["params"][k]["typ"] if k < len(i["params"]) else "absent")])
         ret = ent(x["ret"], "result", salt, i["ret"]["typ"])
         doc = {"absent": "", "one": "The summary line", "multi": "The summary line\n\nA longer paragraph of prose.",
@@ -233,7 +242,7 @@ def _cmp_entry(kind, n, g, e):
             d.append((kind + ".default", "{}: default {} != {!r} ({})".format(n, g["default"], val, type(val).__name__)))
     if not e.get("doc_any") and canon_doc(g.get("doc")) != canon_doc(e["doc"]):
         d.append((kind + ".doc", "{}: description {!r} != {!r}".format(n, g.get("doc"), e["doc"])))
-    extra = set(g) - {"typ", "doc", "default", "x_typ"}
+    extra = set(g) - {"typ", "doc", "default", "x_typ"} - ALLOW_KEYS[0]
     if extra:
         d.append((kind + ".keys", "{}: unexpected keys {}".format(n, sorted(extra))))
     return d
